@@ -689,7 +689,7 @@ func main() {
 	}
 
 	// ----- seeded random timelines -----
-	n := f.Count(160, 2000)
+	n := f.Count(160, 5000)
 	for i := 0; i < n; i++ {
 		r := gen.Fork(f.Seed, i)
 		g := &genState{r: r, nkeys: 1 + r.Intn(4), aligned: r.Chance(2, 3)}
